@@ -1350,8 +1350,8 @@ func run(c *core.Ctx) {
 	defer os.RemoveAll(dir)
 
 	// ---- phase R: run the grammars that carry "#! run" directives (a handful of cases: the first
-	// rows of each such grammar in which the standard driver can parse, i.e. genParser on and
-	// tokenStream off) and compare what their semantic actions record
+	// rows of each such grammar in which the standard driver can parse, i.e. genParser on,
+	// tokenStream and debugParser off) and compare what their semantic actions record
 	const runRowsPerGrammar = 6
 	var runList []int
 	perG := map[int]int{}
@@ -1360,7 +1360,8 @@ func run(c *core.Ctx) {
 		if info[i].st != "ok" || len(p.grammars[cr.G].Runs) == 0 || perG[cr.G] >= runRowsPerGrammar {
 			continue
 		}
-		if !bit(cr.Mask, optIndex("genParser")) || bit(cr.Mask, optIndex("tokenStream")) {
+		// debugParser prints the parser's trace on the driver's stdout, which is its result channel
+		if !bit(cr.Mask, optIndex("genParser")) || bit(cr.Mask, optIndex("tokenStream")) || bit(cr.Mask, optIndex("debugParser")) {
 			continue
 		}
 		perG[cr.G]++
@@ -1546,7 +1547,7 @@ func replay(c *core.Ctx, raw json.RawMessage) error {
 		})
 	}
 	opts := strings.Join(rc.Options, "\n")
-	if ok && len(fails) == 0 && len(rc.Runs) > 0 && !strings.Contains(opts, "tokenStream = true") && !strings.Contains(opts, "genParser = false") {
+	if ok && len(fails) == 0 && len(rc.Runs) > 0 && !strings.Contains(opts, "tokenStream = true") && !strings.Contains(opts, "genParser = false") && !strings.Contains(opts, "debugParser = true") {
 		c.RunShards(core.ShardOpts{
 			N: 1, Args: []string{"run", srcFile, listFile}, Confirm: 1, Silence: 300 * time.Second,
 			OnRecord: func(shard int, raw json.RawMessage) {
